@@ -25,7 +25,7 @@ def parse_block(root, file, name):
     return ty, consts, src.line_of(m.start())
 
 
-def items(root, file, name, copy_consts=True):
+def items(root, file, name, copy_consts=True, assign_ops=False):
     ty, consts, line = parse_block(root, file, name)
     out = []
     seen = set()
@@ -57,5 +57,7 @@ def items(root, file, name, copy_consts=True):
         L.append('    open spec fn %s_req(self, o: %s) -> bool { true }' % (m, name))
         L.append('    open spec fn %s_spec(self, o: %s) -> %s { %s { bits: self.bits %s o.bits } }' % (m, name, name, name, op))
         L.append('}')
+    if assign_ops:
+        L.append('impl core::ops::BitAndAssign for %s { fn bitand_assign(&mut self, o: %s) ensures *final(self) == (%s { bits: old(self).bits & o.bits }) { *self = %s { bits: self.bits & o.bits }; } }' % (name, name, name, name))
     out.append(Raw('\n'.join(L)))
     return out
